@@ -149,6 +149,36 @@ def run(ctx, repo, tier):
         raise AnalysisError("anchor vanished: DecompositionTool.get_decomposition")
     ctx.analysed(gd)
     dw = gd.where
+    # the sorting step may live in a private helper (`return self._sort_eigenpairs(values, vectors)`): analyse the spliced method, with a
+    # returned pair of expressions named after the arrays they are computed from (`return v.real[o], w.real[:, o]` -> v = ..; w = ..)
+    from ..astutil import splice_self_calls as _splice, helper_closure as _hc
+    from ..model import FunctionInfo as _FI, set_parents as _setp
+    _gd_node = _splice(dci, gd.node, module=dci.module)
+    for h_ in sorted(_hc(dci, ["get_decomposition"]) - {"get_decomposition"}):
+        if dci.find_method(h_) is not None:
+            ctx.analysed(dci.find_method(h_))
+    _rets = [n for n in _gd_node.body if isinstance(n, ast.Return) and isinstance(n.value, ast.Tuple) and len(n.value.elts) == 2]
+    if len(_rets) == 1 and not all(isinstance(x, ast.Name) for x in _rets[0].value.elts):
+        def _base(e):
+            nm = {n.id for n in ast.walk(e) if isinstance(n, ast.Name)}
+            return nm
+        _eg_t = [n for n in ast.walk(_gd_node) if isinstance(n, ast.Assign) and isinstance(n.targets[0], ast.Tuple) and len(n.targets[0].elts) == 2 and
+                 all(isinstance(x, ast.Name) for x in n.targets[0].elts) and "eigs" in src(n.value)]
+        if len(_eg_t) == 1:
+            vn_, wn_ = (x.id for x in _eg_t[0].targets[0].elts)
+            e1, e2 = _rets[0].value.elts
+            if vn_ in _base(e1) and wn_ not in _base(e1) and wn_ in _base(e2):
+                k_ = _gd_node.body.index(_rets[0])
+                new_ = []
+                if not isinstance(e2, ast.Name):
+                    new_.append(ast.Assign(targets=[ast.Name(id=wn_, ctx=ast.Store())], value=e2))
+                if not isinstance(e1, ast.Name):
+                    new_.append(ast.Assign(targets=[ast.Name(id=vn_, ctx=ast.Store())], value=e1))
+                # the vectors are selected first: their index expression may still read the unsorted values
+                _gd_node.body[k_:k_ + 1] = new_ + [ast.Return(value=ast.Tuple(elts=[ast.Name(id=vn_, ctx=ast.Load()), ast.Name(id=wn_, ctx=ast.Load())], ctx=ast.Load()))]
+                ast.fix_missing_locations(_gd_node)
+    _setp(_gd_node)
+    gd = _FI(gd.name, gd.qualname, gd.module, _gd_node, gd.cls)
     eg = [n for n in ast.walk(gd.node) if isinstance(n, ast.Call) and (repo.dotted_of(gd.module, n.func) or "").endswith("linalg.eigs")]
     ctx.instance("PARITY")
     if len(eg) != 1:
@@ -257,6 +287,13 @@ def run(ctx, repo, tier):
         def elementwise_of(e, name):
             e = strip_elementwise(e)
             return isinstance(e, ast.Name) and e.id == name
+
+        def same_values(text, name):
+            """the array an argsort was taken of is `name` up to order-preserving elementwise views (real part of the values)"""
+            try:
+                return elementwise_of(ast.parse(text, mode="eval").body, name)
+            except SyntaxError:
+                return text == name
         def strip_elementwise(e):
             while True:
                 if isinstance(e, ast.Attribute) and e.attr in ("real", "T") and e.attr == "real":
@@ -297,7 +334,7 @@ def run(ctx, repo, tier):
             k_ = oa.expr_kind.get(id(e))
             if k_ is not None and k_.perm_of is not None and k_.perm_of.startswith(("ASC:", "DESC:")):
                 d_, of_ = k_.perm_of.split(":", 1)
-                return (d_, state, st) if of_ == vname else ("?", of_, st)
+                return (d_, state, st) if same_values(of_, vname) else ("?", of_, st)
             return None
         nested = [n for st in gd.node.body if not isinstance(st, ast.Assign) for n in ast.walk(st)
                   if isinstance(n, (ast.Assign, ast.AugAssign)) and any(src(t) in (vname, wname) for t in (n.targets if isinstance(n, ast.Assign) else [n.target]))]
@@ -311,7 +348,7 @@ def run(ctx, repo, tier):
             k = oa.expr_kind.get(id(v))
             if k is not None and k.perm_of is not None and k.perm_of.startswith(("ASC:", "DESC:")) and isinstance(t, ast.Name):
                 d, of = k.perm_of.split(":", 1)
-                perms[tn] = (d, state, st) if of == vname else ("?", of, st)
+                perms[tn] = (d, state, st) if same_values(of, vname) else ("?", of, st)
                 continue
             if tn == vname:
                 if elementwise_of(v, vname):
